@@ -4,6 +4,13 @@
 
 use std::sync::atomic::{AtomicU64, AtomicUsize, Ordering};
 
+use crate::{
+    ranger::{self, Fingerprint, InsertOutcome, Range, RangeEntry, Store as RangerStore, SyncConfig},
+    store::{fs::StoreInstance, Store},
+    sync::{ProtocolMessage, Record, RecordIdentifier, SignedEntry},
+    ContentStatus, NamespaceId,
+};
+
 // ---- H1: clock -------------------------------------------------------------------------------
 static CLOCK: AtomicU64 = AtomicU64::new(0);
 /// Set the clock override in microseconds since the epoch (0 = real clock).
@@ -31,3 +38,138 @@ pub(crate) fn sync_config_override() -> Option<(usize, usize)> {
     }
 }
 
+// ---- H3: adapter for an external ordered-map backend -------------------------------------------
+pub trait MapBackend {
+    fn first(&mut self) -> Option<RecordIdentifier>;
+    /// Entries in the (possibly wrap-around) range, in the order the backend defines.
+    fn range(&mut self, x: &RecordIdentifier, y: &RecordIdentifier) -> Vec<SignedEntry>;
+    fn prefixes_of(&mut self, id: &RecordIdentifier) -> Vec<SignedEntry>;
+    fn entry_put(&mut self, entry: SignedEntry);
+    fn remove_prefix_filtered(
+        &mut self,
+        prefix: &RecordIdentifier,
+        predicate: &dyn Fn(&Record) -> bool,
+    ) -> usize;
+}
+
+struct Adapter<'a, B: MapBackend>(&'a mut B);
+
+impl<B: MapBackend> RangerStore<SignedEntry> for Adapter<'_, B> {
+    type Error = anyhow::Error;
+    type RangeIterator<'x>
+        = std::vec::IntoIter<anyhow::Result<SignedEntry>>
+    where
+        Self: 'x;
+    type ParentIterator<'x>
+        = std::vec::IntoIter<anyhow::Result<SignedEntry>>
+    where
+        Self: 'x;
+
+    fn get_first(&mut self) -> anyhow::Result<RecordIdentifier> {
+        Ok(self.0.first().unwrap_or_default())
+    }
+    fn get_fingerprint(&mut self, range: &Range<RecordIdentifier>) -> anyhow::Result<Fingerprint> {
+        let mut fp = Fingerprint::empty();
+        for e in self.0.range(range.x(), range.y()) {
+            fp ^= e.as_fingerprint();
+        }
+        Ok(fp)
+    }
+    fn entry_put(&mut self, entry: SignedEntry) -> anyhow::Result<()> {
+        self.0.entry_put(entry);
+        Ok(())
+    }
+    fn get_range(
+        &mut self,
+        range: Range<RecordIdentifier>,
+    ) -> anyhow::Result<Self::RangeIterator<'_>> {
+        let v: Vec<_> = self.0.range(range.x(), range.y()).into_iter().map(Ok).collect();
+        Ok(v.into_iter())
+    }
+    fn prefixes_of(&mut self, key: &RecordIdentifier) -> anyhow::Result<Self::ParentIterator<'_>> {
+        let v: Vec<_> = self.0.prefixes_of(key).into_iter().map(Ok).collect();
+        Ok(v.into_iter())
+    }
+    fn remove_prefix_filtered(
+        &mut self,
+        prefix: &RecordIdentifier,
+        predicate: impl Fn(&Record) -> bool,
+    ) -> anyhow::Result<usize> {
+        Ok(self.0.remove_prefix_filtered(prefix, &predicate))
+    }
+}
+
+fn outcome(o: InsertOutcome) -> Option<usize> {
+    match o {
+        InsertOutcome::Inserted { removed } => Some(removed),
+        InsertOutcome::NotInserted => None,
+    }
+}
+
+pub fn map_put<B: MapBackend>(b: &mut B, entry: SignedEntry) -> anyhow::Result<Option<usize>> {
+    Adapter(b).put(entry).map(outcome)
+}
+pub fn map_initial_message<B: MapBackend>(b: &mut B) -> anyhow::Result<ProtocolMessage> {
+    Adapter(b).initial_message()
+}
+pub async fn map_process_message<B: MapBackend>(
+    b: &mut B,
+    message: ProtocolMessage,
+    validate: impl Fn(&SignedEntry) -> bool,
+    status: ContentStatus,
+) -> anyhow::Result<Option<ProtocolMessage>> {
+    let config = SyncConfig::default();
+    Adapter(b)
+        .process_message(
+            &config,
+            message,
+            |_, e, _| validate(e),
+            async |_, _, _| (),
+            async |_| status,
+        )
+        .await
+}
+
+// plain-typed access to the redb implementation of the same primitives
+pub fn si_get_first(store: &mut Store, ns: NamespaceId) -> anyhow::Result<RecordIdentifier> {
+    StoreInstance::new(ns, store).get_first()
+}
+pub fn si_get_range(
+    store: &mut Store,
+    ns: NamespaceId,
+    x: RecordIdentifier,
+    y: RecordIdentifier,
+) -> anyhow::Result<Vec<SignedEntry>> {
+    StoreInstance::new(ns, store).get_range(Range::new(x, y))?.collect()
+}
+pub fn si_fingerprint(
+    store: &mut Store,
+    ns: NamespaceId,
+    x: RecordIdentifier,
+    y: RecordIdentifier,
+) -> anyhow::Result<[u8; 32]> {
+    Ok(StoreInstance::new(ns, store).get_fingerprint(&Range::new(x, y))?.0)
+}
+pub fn si_prefixes_of(
+    store: &mut Store,
+    ns: NamespaceId,
+    id: &RecordIdentifier,
+) -> anyhow::Result<Vec<SignedEntry>> {
+    StoreInstance::new(ns, store).prefixes_of(id)?.collect()
+}
+pub fn si_remove_prefix_filtered(
+    store: &mut Store,
+    ns: NamespaceId,
+    id: &RecordIdentifier,
+    predicate: impl Fn(&Record) -> bool,
+) -> anyhow::Result<usize> {
+    StoreInstance::new(ns, store).remove_prefix_filtered(id, predicate)
+}
+pub fn si_entry_put(store: &mut Store, ns: NamespaceId, e: SignedEntry) -> anyhow::Result<()> {
+    StoreInstance::new(ns, store).entry_put(e)
+}
+pub fn entry_fingerprint(e: &SignedEntry) -> [u8; 32] {
+    e.as_fingerprint().0
+}
+#[allow(unused)]
+fn _unused(_: ranger::Message<SignedEntry>) {}
